@@ -213,7 +213,11 @@ func run(c *runner.Ctx) {
 	fmt.Sscanf(c.Mode, "direct%d", &directCap)
 	persistent := defaultMode || direct // one cache instance for the whole process: sequences chain
 	var d *deleg
-	if direct {
+	if c.Mode == "directmap" {
+		// the README's alternative cache, handed over as it is
+		directCap = 1 << 30
+		valid.SetStructTypeCache(new(sync.Map))
+	} else if direct {
 		valid.SetStructTypeCache(valid.NewLRU(directCap))
 	} else if !defaultMode {
 		d = &deleg{inner: missCache{}}
@@ -259,6 +263,10 @@ func run(c *runner.Ctx) {
 		depth = 3
 	} else if direct {
 		runCfgs = []cfg{{fmt.Sprintf("own-LRU(%d)-passed-directly", directCap), nil, directCap}}
+		if c.Mode == "directmap" {
+			runCfgs = []cfg{{"sync.Map-passed-directly", nil, directCap}}
+			starts = starts[:2] // nothing is ever flushed from a sync.Map
+		}
 		depth = 3
 	}
 	for _, cf := range runCfgs {
@@ -527,6 +535,6 @@ func main() {
 			"and on the untouched package default and on the library's own LRU(0) / LRU(1) / LRU(2) handed to SetStructTypeCache directly (separate worker sets, one cache instance per process so sequences chain); and every depth-3 sequence on LRU(1), LRU(2), LRU(512), sync.Map with one (thorough: one or two) of its cache loads answered with a miss although the entry is present (the answer a concurrent eviction produces); one rule-map object edited in place between successive calls, and the history (validate, register a global function for a name the type uses, validate) on every configuration; every call compared with walk(type, tag, override, value); states = (configuration, per-type last tag) ; non-trivial = a type re-validated under the other tag",
 		Assumptions: []string{"walk model internal/walk", "the global cache is replaced through the public SetStructTypeCache only"},
 		Run:         run,
-		Modes:       []runner.Mode{{Name: "inproc"}, {Name: "default", Workers: 8}, {Name: "direct0", Workers: 2}, {Name: "direct1", Workers: 3}, {Name: "direct2", Workers: 3}},
+		Modes:       []runner.Mode{{Name: "inproc"}, {Name: "default", Workers: 8}, {Name: "direct0", Workers: 2}, {Name: "directmap", Workers: 2}, {Name: "direct1", Workers: 3}, {Name: "direct2", Workers: 3}},
 	})
 }
